@@ -270,7 +270,7 @@ PROPS['C15'] = dict(
 )
 
 PROPS['C18'] = dict(
-    modules=['Vivid.Props.C18'],
+    modules=['Vivid.Props.C18', 'Vivid.Props.C18Converge'],
     gens=[],
     engines=[dict(name='gossip', must_hit=['scenario:join', 'scenario:idle-long', 'scenario:crash', 'scenario:restart', 'scenario:seed-crash', 'scenario:seed-restart', 'scenario:two-seeds',
                                            'scenario:late-crash-messages', 'scenario:partition', 'scenario:random', 'rand:crash', 'rand:start', 'rand:recv']),
